@@ -124,6 +124,31 @@ def step (tbl : Array SpD) (stack : List (Impl C)) (tok : String) : Option (List
       some (.leaf (.proj (← sp p) (← sp q) (← parseIdx idx)) :: st)
   | ["projadj", q, p, idx], st => do
       some (.leaf (.projAdj (← sp q) (← sp p) (← parseIdx idx)) :: st)
+  -- round 4: n-d leaves (shape = `n0,n1,…`; pts = one index row per axis, rows separated by `~`)
+  | ["sampnd", s, r, sh, pts, b, cv], st => do
+      let b ← (if b = "1" then some true else if b = "0" then some false else none)
+      let sh ← parseNatList sh
+      let pts ← (pts.splitOn "~").mapM parseNatList
+      if pts.length != sh.length then none
+      some (.leaf (.sampling (← sp s) (← sp r) (sampIdx sh pts) b (← CRat.parse cv)) :: st)
+  | ["wsumnd", r, s, sh, pts, b, cv], st => do
+      let b ← (if b = "1" then some true else if b = "0" then some false else none)
+      let sh ← parseNatList sh
+      let pts ← (pts.splitOn "~").mapM parseNatList
+      if pts.length != sh.length then none
+      some (.leaf (.wsum (← sp r) (← sp s) (sampIdx sh pts) b (← CRat.parse cv)) :: st)
+  | ["flatf", s, r, sh], st => do
+      some (.leaf (Leaf.flattenF (← sp s) (← sp r) (← parseNatList sh)) :: st)
+  | ["flatfinv", r, s, sh], st => do
+      some (.leaf (Leaf.flattenFInv (← sp r) (← sp s) (← parseNatList sh)) :: st)
+  | ["mataxis", d, r, n, m, q, cw, mat], st => do
+      -- cw = `-` (a weighting without `.const` on either side) or `wd,wr`
+      let cw ← (if cw = "-" then some none else
+        match cw.splitOn "," with
+        | [a, b] => do some (some ((← CRat.parse a), (← CRat.parse b)))
+        | _ => none)
+      some (.leaf (Leaf.matrixAxis CRat.conj (← sp d) (← sp r) (← n.toNat?) (← m.toNat?)
+        (← q.toNat?) cw (← parseMat mat)) :: st)
   | ["sum"], b :: a :: st => some (.sum a b :: st)
   | ["comp"], b :: a :: st => some (.comp a b :: st)
   | ["lsc", c], a :: st => do some (.lscal a (← CRat.parse c) :: st)
